@@ -848,12 +848,15 @@ pub(crate) fn eval_packed_lookups_generic<F, FE, P, S, const D: usize, const D2:
             // Check the `Z` polynomial.
             let z = lookup_vars.local_values[start + num_helper_columns - 1];
             let next_z = lookup_vars.next_values[start + num_helper_columns - 1];
-            let table_with_challenge = lookup.table_column.eval(local_values) + challenge;
+            let table_with_challenge =
+                lookup.table_column.eval_with_next(local_values, next_values) + challenge;
             let y = lookup_vars.local_values[start..start + num_helper_columns - 1]
                 .iter()
                 .fold(P::ZEROS, |acc, x| acc + *x)
                 * table_with_challenge
-                - lookup.frequencies_column.eval(local_values);
+                - lookup
+                    .frequencies_column
+                    .eval_with_next(local_values, next_values);
             // Check that in the first row, z = 0;
             yield_constr.constraint_first_row(z);
             yield_constr.constraint((next_z - z) * table_with_challenge - y);
@@ -915,17 +918,21 @@ pub(crate) fn eval_ext_lookups_circuit<
 
             let z = lookup_vars.local_values[start + num_helper_columns - 1];
             let next_z = lookup_vars.next_values[start + num_helper_columns - 1];
-            let table_column = lookup
-                .table_column
-                .eval_circuit(builder, vars.get_local_values());
+            let table_column = lookup.table_column.eval_with_next_circuit(
+                builder,
+                vars.get_local_values(),
+                vars.get_next_values(),
+            );
             let table_with_challenge = builder.add_extension(table_column, challenge);
             let mut y = builder.add_many_extension(
                 &lookup_vars.local_values[start..start + num_helper_columns - 1],
             );
 
-            let frequencies_column = lookup
-                .frequencies_column
-                .eval_circuit(builder, vars.get_local_values());
+            let frequencies_column = lookup.frequencies_column.eval_with_next_circuit(
+                builder,
+                vars.get_local_values(),
+                vars.get_next_values(),
+            );
             y = builder.mul_extension(y, table_with_challenge);
             y = builder.sub_extension(y, frequencies_column);
 
